@@ -678,6 +678,8 @@ class SortedWriter {
     }
 
     async write(stable_entry) {
+        // Use arrival order instead of NR as the tie breaker: with UNNEST or JOIN several output records share the same NR
+        stable_entry[stable_entry.length - 2] = this.unsorted_entries.length;
         this.unsorted_entries.push(stable_entry);
         return true;
     }
